@@ -39,7 +39,11 @@ ExampleReasons(e) ==
    {<<n, "fid-example-section-keys">> : n \in {x \in DOMAIN Shapes : x \in DOMAIN e.tables /\ ToSet(e.tables[x]) # Shapes[x].opts}} \cup
    {<<n, "fid-example-global-sections">> : n \in {x \in ExampleGlobals : x \notin DOMAIN e.tables}} \cup
    (IF e.nontables = <<>> THEN {} ELSE {<<"", "fid-example-top-level-values">>})
-Reasons(e) == CASE e.ev = "Run" -> RunReasons(e) [] e.ev = "Example" -> ExampleReasons(e)
+\* an option set in the lint's own section reaches the instance that is about to run (C11: "setting a lint's option changes that
+\* lint's behaviour from the next run on" - it cannot if the value never arrives)
+ReachReasons(e) == IF e.configured /\ ~e.reached THEN {<<e.lint, "option-does-not-reach-the-lint-instance">>}
+                   ELSE IF ~e.configured THEN {<<e.lint, "well-typed-option-refused">>} ELSE {}
+Reasons(e) == CASE e.ev = "Run" -> RunReasons(e) [] e.ev = "Example" -> ExampleReasons(e) [] e.ev = "Reach" -> ReachReasons(e)
                 [] e.ev = "Unloadable" -> {<<"", "fid-document-not-loadable">>} [] OTHER -> {}
 TraceInit == l = 1 /\ nrej = 0 /\ memo = <<>>
 Step == /\ l <= Len(Trace)
